@@ -170,3 +170,16 @@ def future_tests(ctx, f):
     return [(n, e) for n in ctx.live_nodes(f) if n.kind == 'test' for e in ast.walk(n.ast)
             if isinstance(e, ast.Call) and dotted(e.func) == 'isinstance' and len(e.args) == 2
             and 'Future' in astq.norm_text(e.args[1])]
+
+
+def stores_hook_entry(node_or_nodes):
+    """some statement stores X['hooks'][<anything>] = <value>"""
+    nodes = node_or_nodes if isinstance(node_or_nodes, (list, tuple)) else [node_or_nodes]
+    for nd in nodes:
+        for x in ast.walk(nd):
+            if isinstance(x, ast.Assign):
+                for t in x.targets:
+                    if isinstance(t, ast.Subscript) and isinstance(t.value, ast.Subscript) and \
+                            isinstance(t.value.slice, ast.Constant) and t.value.slice.value == 'hooks':
+                        return True
+    return False
